@@ -105,3 +105,15 @@ claim("C19",
       note="pandas operations are assumed contracts (pyvc/pdmodel.py). Frame shape bounded (2 categorical columns x 2 categories, 1-3 rows). single=True only "
            "in the bounded stand-in.",
       technique="deductive verification: symbolic strings + dicts with symbolic keys, fork on key equality, z3 string theory")
+claim("C08",
+      text="Proof, bounded in the number of buckets (1..3) and complete in rows/values: for PiecewiseRegressor.predict, PiecewiseClassifier.predict_proba and "
+           "predict every row gets exactly the output of its bucket's local model, or of the global fallback model when its bucket was unseen (boolean-mask "
+           "gather/scatter through ghost rank/unrank/count), input never written, no model refitted; _fit_piecewise_estimator (regressor case): one fit of the "
+           "given model on exactly the bucket's rows with features, targets and weights selected by the same mask; fit: binner and estimator cloned, one local "
+           "model per training bucket trained on its rows, the fallback on the whole set, an integer random_state (0 included) seeds the generator. "
+           "Bounded: recording local estimator on 4 data sets x 4 binners (exact training sets, dispatch, unseen discretizer cells), classifier "
+           "distributions/labels, n_jobs in {None,1,2,4} incl. repeated fits with borrowed examples.",
+      note="transform_bins and _mapping_train are ASSUMED (sparse decision_path / discretizer plumbing); they are exercised by the bounded stand-in only. "
+           "A8: joblib is modelled as a sequential map - real thread interleavings are outside this technique (one schedule-dependence was found by the "
+           "bounded stand-in and repaired).",
+      technique="deductive verification: mask gather/scatter lemmas (rank/unrank), Trace clauses; z3 5.1 raced with z3 4.8.12")
